@@ -25,6 +25,7 @@ struct Deliv { int pid = 0; std::string msg, sender; int exitcode = -1; bool don
 
 struct Local : Scenario {
   const Config &cfg; std::string mode; std::vector<Deliv> d; std::string host = "host.example"; std::string oldmbox;
+  std::string c12_local = "u";   // the recipient's local part in the maildir/mbox modes (one variant contains a line feed)
   bool timer_fired = false;   // ALT_SIGNAL: the pending alarm of a delivery process was made to expire
   bool crashed = false; int faults = 0; std::string inputname; std::shared_ptr<Sink> out1, err2;
   std::vector<std::string> actions;   // observed: "program <cmd>", "maildir", "mbox <file>", "forward <sender> -> <rcpts>"
@@ -68,9 +69,10 @@ struct Local : Scenario {
       std::vector<std::string> ms = {"", "x", std::string(1023, 'a') + "\n", std::string(1024, 'b'), std::string(1025, 'c') + "\n", "Subject: s\n\n" + std::string(3000, 'd') + "\nlast", std::string("nul\0and\xff 8bit\n", 15)};
       std::vector<std::string> ss = senders();
       int mi = w.ex->choose_n((int) ms.size(), BK_FREE), si = w.ex->choose_n((int) ss.size(), BK_FREE);
-      inputname = "msg#" + std::to_string(mi) + "(" + std::to_string(ms[mi].size()) + "B) sender[" + esc(ss[si]) + "]";
-      if (cfg.geti("two")) { spawn_local(w, ms[mi], ss[si], "./Maildir/"); spawn_local(w, ms[(mi + 1) % ms.size()], ss[si], "./Maildir/"); }
-      else spawn_local(w, ms[mi], ss[si], "./Maildir/");
+      if (w.ex->choose_n(2, BK_FREE)) c12_local = "list\nFrom owner";   // a local part with a line feed (the address rules allow it): it must not break the Delivered-To line
+      inputname = "msg#" + std::to_string(mi) + "(" + std::to_string(ms[mi].size()) + "B) sender[" + esc(ss[si]) + "] local[" + esc(c12_local) + "]";
+      if (cfg.geti("two")) { spawn_local(w, ms[mi], ss[si], "./Maildir/", c12_local); spawn_local(w, ms[(mi + 1) % ms.size()], ss[si], "./Maildir/", c12_local); }
+      else spawn_local(w, ms[mi], ss[si], "./Maildir/", c12_local);
     } else if (mode == "mbox") {
       auto ms = mbox_messages(th); auto ss = senders();
       int mi = w.ex->choose_n(std::min<int>((int) ms.size(), 240), BK_FREE);
@@ -79,8 +81,9 @@ struct Local : Scenario {
       int si = w.ex->choose_n((int) ss.size(), BK_FREE);
       oldmbox = cfg.geti("emptybox") ? "" : "From old@x Thu Jan  1 00:00:00 1970\nold message\n\n";
       k.put_file("/home/u/Mailbox", oldmbox, 0600, 1000, 1000);
-      inputname = "msg[" + esc(ms[m], 40) + "] sender[" + esc(ss[si]) + "]";
-      spawn_local(w, ms[m], ss[si], "./Mailbox");
+      if (w.ex->choose_n(2, BK_FREE)) c12_local = "list\nFrom owner";
+      inputname = "msg[" + esc(ms[m], 40) + "] sender[" + esc(ss[si]) + "] local[" + esc(c12_local) + "]";
+      spawn_local(w, ms[m], ss[si], "./Mailbox", c12_local);
     } else if (mode == "mboxconc") {
       oldmbox = "From old@x Thu Jan  1 00:00:00 1970\nold message\n\n";
       k.put_file("/home/u/Mailbox", oldmbox, 0600, 1000, 1000);
@@ -95,6 +98,8 @@ struct Local : Scenario {
   // ------------------------------------------------------------------ alternatives: crash points and faults
   void alternatives(World &w, Proc &p, const Req &r, std::vector<Alt> &a) override {
     if (mode == "c13") {
+      // the 30-second lock timer belongs to the lock wait alone: were it still pending at any later call (a program running, a forward), it could run out there
+      if (cfg.get("family", "") == "instr" && w.ex->bound[BK_ENV] > 0 && p.vpid == d[0].pid && p.alarm_at > 0 && r.op != VK_FLOCK && r.op != VK_ALARM && !timer_fired) { a.push_back({BK_ENV, ALT_SIGNAL, SIGALRM}); return; }
       // family qmailio: the selected control file cannot be opened (each of a list of error codes) or read, or is read in short pieces
       if (cfg.get("family", "") != "qmailio" || w.ex->bound[BK_FAULT] <= 0 || p.vpid != d[0].pid) return;
       if (r.op == VK_OPEN && std::string(r.data.c_str()).compare(0, 6, ".qmail") == 0) for (int e : {EIO, ENFILE, EMFILE, ENOMEM, EACCES, EPERM, EAGAIN, ENOSPC, ETXTBSY, EBUSY}) a.push_back({BK_FAULT, ALT_FAIL, e});
@@ -134,7 +139,7 @@ struct Local : Scenario {
     size_t e1 = data.find('\n'); if (e1 == std::string::npos) return false;
     std::string l1 = data.substr(0, e1 + 1);
     if (l1.compare(0, 14, "Return-Path: <") != 0 || l1.size() < 16 || l1.compare(l1.size() - 2, 2, ">\n") != 0) return false;
-    std::string rest = data.substr(e1 + 1), dt = DT("u", host);
+    std::string rest = data.substr(e1 + 1), dt = DT(c12_local, host);
     if (rest.compare(0, dt.size(), dt) != 0) return false;
     std::string body = rest.substr(dt.size());
     if (body == x.msg) return true;
